@@ -111,6 +111,10 @@ class Shrinker:
         """A violation that consists of an exception keeps its exception type while shrinking
         (dropping a file that the configuration still names would otherwise 'reproduce' an
         exception-only-in-batch violation with an unrelated configuration error)."""
+        what = getattr(self, "what", None)
+        if what is not None:
+            # read monitor: the same complaint (e.g. the same unclassified token), not just any
+            return isinstance(x.get("observed"), dict) and str(x["observed"].get("what", "")).split(" at line")[0] == what
         want = getattr(self, "exc_type", None)
         if want is None:
             return True
@@ -140,6 +144,8 @@ def minimize(mod, v, env):
     first = v["violations"][0]
     if isinstance(first.get("observed"), dict) and isinstance(first["observed"].get("exc"), dict):
         S.exc_type = first["observed"]["exc"].get("type")
+    if first.get("class") == "read-not-lossless" and isinstance(first.get("observed"), dict):
+        S.what = str(first["observed"].get("what", "")).split(" at line")[0]
     cur = copy.deepcopy(desc0)
     r = S.test(cur)
     if not r:
